@@ -246,3 +246,14 @@ func ProtoC17(name string) ([]Token, bool) {
 
 // PrototypeCheckC17 exposes the real prototypeCheck.
 func PrototypeCheckC17(expr *CallExpr) error { return prototypeCheck(expr) }
+
+// SemanticCheckC17 runs the two passes Parser.Parse applies to an accepted AST (collectVariable, then
+// primitiveCheck, both through the real Inspect/Walk) on a hand-built AST and returns the number of
+// reported errors and of collected variables.
+func SemanticCheckC17(ast Node) (int, int) {
+	var p Parser
+	p.Init(nil)
+	Inspect(ast, p.collectVariable)
+	Inspect(ast, p.primitiveCheck)
+	return len(p.errors), len(p.identList)
+}
